@@ -96,3 +96,21 @@ Definition parse_response := parse_response_gen true.
 Definition response_wire (sc st : value) (body : value) : res bytes :=
   do w <- encode_model (depth_of CR) CR [sc; st; body] ;;
   Ok (tlv RESPONSE_TYPE w).
+
+(* ---- the status datasets and the other management models of nfd_mgmt.py (descriptors regenerated from the source) ----
+   what an application does with a dataset: Cls.parse(wire) / obj.encode(), i.e. the generic codec on the class's
+   descriptor, critical elements not ignored *)
+Definition nfd_models : list (list field) :=
+  [Generated.Schemas.nfd_mgmt_ControlParameters; Generated.Schemas.nfd_mgmt_ControlParametersValue;
+   Generated.Schemas.nfd_mgmt_ControlResponse; Generated.Schemas.nfd_mgmt_CsInfo;
+   Generated.Schemas.nfd_mgmt_FaceEventNotification; Generated.Schemas.nfd_mgmt_FaceEventNotificationValue;
+   Generated.Schemas.nfd_mgmt_FaceQueryFilter; Generated.Schemas.nfd_mgmt_FaceQueryFilterValue;
+   Generated.Schemas.nfd_mgmt_FaceStatus; Generated.Schemas.nfd_mgmt_FaceStatusMsg;
+   Generated.Schemas.nfd_mgmt_FibEntry; Generated.Schemas.nfd_mgmt_FibStatus;
+   Generated.Schemas.nfd_mgmt_GeneralStatus; Generated.Schemas.nfd_mgmt_NextHopRecord;
+   Generated.Schemas.nfd_mgmt_RibEntry; Generated.Schemas.nfd_mgmt_RibStatus; Generated.Schemas.nfd_mgmt_Route;
+   Generated.Schemas.nfd_mgmt_Strategy; Generated.Schemas.nfd_mgmt_StrategyChoice;
+   Generated.Schemas.nfd_mgmt_StrategyChoiceMsg].
+
+Definition dataset_wire (fs : list field) (vs : list value) : res bytes := encode_model (depth_of fs) fs vs.
+Definition dataset_parse (fs : list field) (w : bytes) : res (list value) := parse_model (depth_of fs) fs false w.
